@@ -283,7 +283,7 @@ def read_wrappers(F):
         for b in F.bodies.values():
             if b.crate != "ant_node":
                 continue
-            if any(c["ncallee"] in out for c in b.calls):
+            if any(c["ncallee"] in out for c in b.calls_raw):
                 root = F.root_of(b).npath
                 if "put_validation" in root and not root.endswith(("validate_and_store_record", "store_replicated_in_record",
                                                                    "validate_and_store_scratchpad_record", "validate_and_store_register",
